@@ -755,26 +755,7 @@ func checkC19(r *Report) {
 		}
 	}
 	r.floor("C19.d/FRESH-SET", "call sites of SetAttr/AddAttr in scope", n, 20)
-	// by-value parameters whose map is mutated: the caller's value changes
-	for _, f := range p.Funcs {
-		if f.Synthetic != "" || f.Parent() != nil {
-			continue
-		}
-		s := e.sums[f]
-		for k, prm := range f.Params {
-			if _, isPtr := prm.Type().Underlying().(*types.Pointer); isPtr {
-				continue
-			}
-			if _, isStruct := prm.Type().Underlying().(*types.Struct); !isStruct {
-				continue
-			}
-			for st, o := range s.writes {
-				if st.field == attrsField && o.p&paramBits(k) != 0 {
-					r.bad("C19.d/FRESH-SET", fmt.Sprintf("%s: mutates by-value parameter %s", fnKey(f), prm.Name()), p.pos(st.pos), "the function receives an attribute set by value but writes its shared map: the caller's value changes behind its back")
-				}
-			}
-		}
-	}
+	byValueAttrMutation(r, p, e, "C19.d/FRESH-SET", attrsField, func(*ssa.Function) bool { return true })
 	// e. KEY-TABLES
 	keyTablesRule(r, p, "resolve/dep", "resolve/internal/deptest", true)
 	keyTablesRule(r, p, "resolve/version", "resolve/internal/versiontest", false)
@@ -962,4 +943,46 @@ func cloneCompleteRule(r *Report, p *Prog, rule string, f *ssa.Function) {
 	} else {
 		r.ok(rule, key, p.pos(f.Pos()), fmt.Sprintf("all %d fields set; reference fields are re-made or cloned", st.NumFields()))
 	}
+}
+
+// byValueAttrMutation reports functions (closures included) that receive an
+// attribute set by value and write its shared map.
+func byValueAttrMutation(r *Report, p *Prog, e *Effect, rule string, attrsField *types.Var, want func(*ssa.Function) bool) int {
+	n := 0
+	for _, f := range p.Funcs {
+		if f.Synthetic != "" || !want(f) {
+			continue
+		}
+		s := e.sums[f]
+		for k, prm := range f.Params {
+			if _, isPtr := prm.Type().Underlying().(*types.Pointer); isPtr {
+				continue
+			}
+			if _, isStruct := prm.Type().Underlying().(*types.Struct); !isStruct {
+				continue
+			}
+			if e.kind(prm.Type()) == 0 {
+				continue
+			}
+			n++
+			for st, o := range s.writes {
+				if st.field == attrsField && o.p&paramBits(k) != 0 {
+					r.bad(rule, fmt.Sprintf("%s: mutates by-value parameter %s", fnKey(f), prm.Name()), p.pos(st.pos), "the function receives an attribute set by value but writes its shared map: the caller's value (and every other copy made from it) changes behind its back")
+				}
+			}
+		}
+	}
+	return n
+}
+
+func attrSetMapField(p *Prog) *types.Var {
+	if tn, ok := p.pkg("resolve/internal/attr").Types.Scope().Lookup("Set").(*types.TypeName); ok {
+		st := tn.Type().Underlying().(*types.Struct)
+		for i := 0; i < st.NumFields(); i++ {
+			if st.Field(i).Name() == "attrs" {
+				return st.Field(i)
+			}
+		}
+	}
+	return nil
 }
